@@ -521,7 +521,7 @@ theorem applySub_ctx_full (kp : Nat → Bool) (st : St) (a : Nat) (b : Int) (s :
   | gpos21 _ => simp [Subtable.contextual] at hs
   | gpos22 _ _ _ _ => simp [Subtable.contextual] at hs
   | gpos31 _ _ => simp [Subtable.contextual] at hs
-  | gpos41 _ _ _ _ => simp [Subtable.contextual] at hs
+  | gpos41 _ _ _ _ _ => simp [Subtable.contextual] at hs
   | gpos61 _ _ _ _ => simp [Subtable.contextual] at hs
 
 /-- every subtable in the shape the reader delivers keeps the invariant and does not panic -/
